@@ -26,7 +26,9 @@ from ..core import viol, exc_site
 LEVEL = "exploration"
 RULE = ("seeded generator over loader kind (points | deeponet shared trunk | deeponet per-function trunk | the two data "
         "conditions) x data-set sizes 1-40 x batch sizes (dividing, not dividing, equal, larger than the data, -1) x "
-        "shuffle flags x drop_last x column counts x norm/root/full-data-set mode; plus complete enumeration of all "
+        "shuffle flags x drop_last x column counts x norm/root/full-data-set mode; mode-switch histories on one condition "
+        "object (j single-batch forwards, j in 1..number of batches+2, then use_full_dataset=True and two full evaluations, "
+        "optionally back to single-batch mode and full again) for both condition classes; plus complete enumeration of all "
         "(size, batch size in {-1,1..size,size+1,size+3}, shuffle, drop_last, layout) combinations for sizes <= 5 "
         "(quick) / <= 8 (thorough). A case is non-trivial when at least one complete pass was recorded and every row "
         "of it was decoded and judged; distinct = (kind, layout, divisibility class of each batch size, shuffle flags, "
@@ -118,6 +120,42 @@ def gen_cases(seed, tier):
                       "root": float(rng.choice([1.0, 2.0])), "full": bool(rng.random() < 0.7),
                       "constrain": bool(rng.random() < 0.3), "forwards": int(rng.integers(1, 4)),
                       "seed": int(rng.integers(0, 2**31))})
+    # mode-switch histories on ONE condition object: j single-batch forwards (j in 1..number of batches + 2), then
+    # use_full_dataset = True and two full evaluations, then optionally back to single-batch mode (and full once more)
+    def switch_case(kind, cfg, j, norm, root, back, constrain):
+        L = _n_batches(kind, cfg)
+        sched = ["s"] * j + ["f", "f"] + ["s"] * back + (["f"] if back > 1 else [])
+        return {"kind": kind, "cfg": cfg, "norm": norm, "root": root, "full": False, "constrain": constrain,
+                "forwards": len(sched), "schedule": sched, "n_batches": L, "seed": int(rng.integers(0, 2**31))}
+    for _ in range(60 if quick else 1000):
+        c = _rand_points_cfg(rng)
+        c["dims"] = [int(rng.integers(1, 4)), int(rng.integers(1, 3))]
+        if c["drop_last"] and c["bs"] > c["N"]:
+            c["drop_last"] = False
+        L = _n_batches("datacond", c)
+        cases.append(switch_case("datacond", c, int(rng.integers(1, L + 3)), [1, 2, "inf"][int(rng.integers(0, 3))],
+                                 float(rng.choice([1.0, 2.0])), int(rng.integers(0, 4)), bool(rng.random() < 0.2)))
+    for _ in range(60 if quick else 1000):
+        c = _rand_don_cfg(rng)
+        c["Nb"], c["Nt"] = min(c["Nb"], 10), min(c["Nt"], 10)
+        c["bb"], c["bt"] = _bs_choice(rng, c["Nb"], True), _bs_choice(rng, c["Nt"], True)
+        L = min(_n_batches("deeponet_datacond", c), 40)
+        cases.append(switch_case("deeponet_datacond", c, int(rng.integers(1, L + 3)), [1, 2, "inf"][int(rng.integers(0, 3))],
+                                 float(rng.choice([1.0, 2.0])), int(rng.integers(0, 4)), bool(rng.random() < 0.2)))
+    for (n, bs) in ((7, 3), (6, 2), (5, 5), (9, 4)):
+        cfg = {"N": n, "bs": bs, "shuffle": False, "drop_last": False, "dims": [1, 1], "as_single": False}
+        for j in range(1, _n_batches("datacond", cfg) + 3):
+            for norm in (1, 2, "inf"):
+                for root in (1.0, 2.0):
+                    cases.append(switch_case("datacond", dict(cfg), j, norm, root, 2 if (j + int(root)) % 2 else 0, False))
+    for (nb, nt, bb, bt, layout) in ((3, 4, 1, 2, "shared"), (4, 3, 2, 2, "unique"), (2, 5, -1, 2, "shared")):
+        cfg = {"Nb": nb, "Nt": nt, "bb": bb, "bt": bt, "shuffle_b": False, "shuffle_t": False, "layout": layout,
+               "D": 2, "fdim": 1, "tdim": 1, "odim": 1}
+        for j in range(1, _n_batches("deeponet_datacond", cfg) + 3):
+            for norm in (1, 2, "inf"):
+                for root in (1.0, 2.0):
+                    cases.append(switch_case("deeponet_datacond", dict(cfg), j, norm, root, 2 if (j + int(root)) % 2 else 0,
+                                             False))
     # complete enumeration of the small sub-space
     top = 5 if quick else 8
     for n in range(1, top + 1):
@@ -128,6 +166,19 @@ def gen_cases(seed, tier):
                 cases.append({"kind": "deeponet_enum", "Nb": nb, "Nt": nt, "layout": layout,
                               "seed": int(rng.integers(0, 2**31))})
     return cases
+
+
+def _n_batches(kind, cfg):
+    """number of batches of one pass (own arithmetic; only used to choose the length of single-batch prefixes)"""
+    if kind == "datacond":
+        return cfg["N"] // cfg["bs"] if cfg["drop_last"] else -(-cfg["N"] // cfg["bs"])
+    nb, nt = cfg["Nb"], cfg["Nt"]
+    bb = nb if cfg["bb"] < 0 else cfg["bb"]
+    bt = nt if cfg["bt"] < 0 else cfg["bt"]
+    if cfg["layout"] == "shared":
+        lb, lt = nb // math.gcd(nb, bb), nt // math.gcd(nt, bt)
+        return lb * lt // math.gcd(lb, lt)
+    return (-(-nb // min(bb, nb))) * (-(-nt // min(bt, nt)))
 
 
 def _enum_bs(n, allow_minus1):
@@ -543,6 +594,19 @@ def _close(a, b):
     return abs(a - b) <= 2e-5 * max(abs(a), abs(b)) + 1e-6
 
 
+def _schedule(c):
+    """modes of the successive forward() calls on ONE condition object: 's' single batch, 'f' full data set"""
+    return list(c.get("schedule") or (["f" if c["full"] else "s"] * c["forwards"]))
+
+
+def _hist(sched, k):
+    """history class of forward k: what kind of calls preceded it on the same condition object"""
+    before = set(sched[:k])
+    if sched[k] == "f":
+        return "full_after_single" if "s" in before else "full"
+    return "single_after_full" if "f" in before else "single"
+
+
 def _run_datacond(c, V, res):
     from torchphysics.models.model import Model
     from torchphysics.problem.spaces import Space, Points
@@ -586,7 +650,12 @@ def _run_datacond(c, V, res):
     except Exception as e:
         V.add("exception", "DataCondition(...) raised %r" % e, site=exc_site(e), stage="construct", **mech)
         return
-    for k in range(c["forwards"]):
+    sched = _schedule(c)
+    mech0 = mech
+    for k, mode in enumerate(sched):
+        full = mode == "f"
+        mech = dict(mech0, full=full, history=_hist(sched, k))
+        cond.use_full_dataset = full
         del seen[:]
         try:
             val = float(cond.forward().detach().reshape(-1)[0])
@@ -598,10 +667,12 @@ def _run_datacond(c, V, res):
             V.add("pairing", "the model was fed rows that are no data of the set (%s)" % c, what="foreign_row", **mech)
             return
         got_batches = [tuple(ids) for _, ids in refs]
-        if c["full"]:
+        _cnt(res, "condition_forwards_" + mech["history"])
+        if full:
             if sorted(got_batches) != sorted(idb):
-                V.add("condition_batches", "full-data-set forward %d fed the model %d batches %s..., one pass over the loader "
-                      "has %d batches %s... (%s)" % (k, len(got_batches), got_batches[:3], len(idb), idb[:3], c), **mech)
+                V.add("condition_batches", "full-data-set forward %d (schedule %s) fed the model %d batches %s..., one pass "
+                      "over the loader has %d batches %s... (%s)" % (k, "".join(sched), len(got_batches), got_batches[:3],
+                                                                     len(idb), idb[:3], c), **mech)
                 return
             want = _aggregate([a for a, _ in refs], c["norm"], c["root"])
             # the same aggregation over an independently recorded pass (every batch exactly once)
@@ -617,7 +688,8 @@ def _run_datacond(c, V, res):
         _cnt(res, "condition_batches_consumed", len(refs))
         if not _close(val, want):
             V.add("condition_value", "DataCondition(norm=%s, root=%s, full=%s).forward() = %.9g, reference aggregation of "
-                  "the %d recorded batches = %.9g (%s)" % (c["norm"], c["root"], c["full"], val, len(refs), want, c),
+                  "the %d recorded batches = %.9g (forward %d of schedule %s; %s)"
+                  % (c["norm"], c["root"], full, val, len(refs), want, k, "".join(sched), c),
                   **mech)
             return
 
@@ -693,7 +765,12 @@ def _run_don_datacond(c, V, res):
         return (tuple(fids), tuple(map(tuple, np.asarray(lm).tolist())))
 
     pass_keys = [key(f, lm) for f, lm in idb]
-    for k in range(c["forwards"]):
+    sched = _schedule(c)
+    mech0 = mech
+    for k, mode in enumerate(sched):
+        full = mode == "f"
+        mech = dict(mech0, full=full, history=_hist(sched, k))
+        cond.use_full_dataset = full
         del seen_b[:]
         del seen_t[:]
         try:
@@ -711,10 +788,11 @@ def _run_don_datacond(c, V, res):
             V.add("pairing", "the DeepONet was fed rows that are no data of the set (%s)" % c, what="foreign_row", **mech)
             return
         got = [key(*ids) for _, ids in refs]
-        if c["full"]:
+        _cnt(res, "condition_forwards_" + mech["history"])
+        if full:
             if sorted(got) != sorted(pass_keys):
-                V.add("condition_batches", "full-data-set forward %d fed the model %d batches, one pass over the loader has "
-                      "%d; first fed %s (%s)" % (k, len(got), len(pass_keys), got[:1], c), **mech)
+                V.add("condition_batches", "full-data-set forward %d (schedule %s) fed the model %d batches, one pass over the "
+                      "loader has %d; first fed %s (%s)" % (k, "".join(sched), len(got), len(pass_keys), got[:1], c), **mech)
                 return
         elif len(got) != 1 or got[0] not in pass_keys:
             V.add("condition_batches", "single-batch forward %d fed the model %d batches / a batch the loader does not "
@@ -726,14 +804,25 @@ def _run_don_datacond(c, V, res):
         _cnt(res, "condition_batches_consumed", len(refs))
         if not _close(val, want):
             V.add("condition_value", "DeepONetDataCondition(norm=%s, root=%s, full=%s).forward() = %.9g, reference "
-                  "aggregation of the %d recorded batches = %.9g (%s)" % (c["norm"], c["root"], c["full"], val,
-                                                                           len(refs), want, c), **mech)
+                  "aggregation of the %d recorded batches = %.9g (forward %d of schedule %s; %s)"
+                  % (c["norm"], c["root"], full, val, len(refs), want, k, "".join(sched), c), **mech)
             return
 
 
 # ---------------------------------------------------------------------------------------------
 # entry point
 # ---------------------------------------------------------------------------------------------
+
+def _sched_cls(c):
+    """'' for a single-mode history, else the run-length pattern of the mode switches (s steps vs number of batches)"""
+    sc = c.get("schedule")
+    if not sc:
+        return ""
+    j = sc.index("f") if "f" in sc else len(sc)
+    L = c.get("n_batches", 0)
+    rel = "lt" if j < L else ("eq" if j == L else "gt")
+    return "/switch-s%s-f%d-%s" % (rel, sc.count("f"), "back" if "s" in sc[j:] else "stay")
+
 
 def run_case(c):
     res = {"cls": "?", "judged": 0, "nontrivial": False, "viol": [], "counters": {}}
@@ -746,11 +835,12 @@ def run_case(c):
         res["cls"] = _don_cls(c["cfg"])
         _run_don_cfg(c["cfg"], c["seed"], c["passes"], V, res)
     elif kind == "datacond":
-        res["cls"] = "cond/%s/n%s/r%g/full%d/c%d" % (_points_cls(c["cfg"]), c["norm"], c["root"], c["full"], c["constrain"])
+        res["cls"] = "cond/%s/n%s/r%g/full%d/c%d%s" % (_points_cls(c["cfg"]), c["norm"], c["root"], c["full"], c["constrain"],
+                                                       _sched_cls(c))
         _run_datacond(c, V, res)
     elif kind == "deeponet_datacond":
-        res["cls"] = "doncond/%s/n%s/r%g/full%d/c%d" % (c["cfg"]["layout"], c["norm"], c["root"], c["full"],
-                                                        c["constrain"])
+        res["cls"] = "doncond/%s/n%s/r%g/full%d/c%d%s" % (c["cfg"]["layout"], c["norm"], c["root"], c["full"],
+                                                          c["constrain"], _sched_cls(c))
         _run_don_datacond(c, V, res)
     elif kind == "points_enum":
         res["cls"] = "enum/points/N%d" % c["N"]
